@@ -1,5 +1,5 @@
 """Generic-rule sweep (both tiers; the thorough tier additionally inlines callees to depth 8 in the formula rules): the
-generic rules G1, G2, G2b, G3, G5, G6, G7, G8, G9, G10, G11, G12, G13, G14 over *every* function / class whose primary
+generic rules G1, G2, G2b, G3, G5, G6, G7, G8, G9, G10, G11, G12 ... G17 over *every* function / class whose primary
 property (attribution table below) is the one being checked.  A generic finding is
 attributed to exactly one property, so a defect in one component never raises another property's alarm."""
 from __future__ import annotations
@@ -77,6 +77,7 @@ def sweep(ctx):
     G.g14_exact_compare(ctx, funcs, rule=pre + "G14")
     G.g15_leaked_loop_variable(ctx, funcs, rule=pre + "G15")
     G.g16_symmetric_arms(ctx, funcs, rule=pre + "G16")
+    G.g17_keyword_namesake(ctx, funcs, rule=pre + "G17")
     sec = [f for f in P.funcs if f not in set(funcs) and secondary(pid, f.module.name)]
     if sec:
         ctx.note(f"supporting code: {len(sec)} functions of modules {SECONDARY[pid]}")
@@ -87,3 +88,5 @@ def sweep(ctx):
         G.g12_dead_parameter(ctx, sec, rule=pre2 + "G12")
         G.g13_inplace_alias(ctx, sec, rule=pre2 + "G13")
         G.g14_exact_compare(ctx, sec, rule=pre2 + "G14")
+        G.g15_leaked_loop_variable(ctx, sec, rule=pre2 + "G15")
+        G.g17_keyword_namesake(ctx, sec, rule=pre2 + "G17")
